@@ -33,8 +33,10 @@ TAppend == E.ev \in {"append", "sink_byte", "sink_word", "sink_dword", "sink_qwo
 TDelete == E.ev = "delete" /\ Step(DeleteNext(acc, E.arg), Norm(ref - PlainSum(E.arg)))
 \* a slice of E.n equal bytes E.b (too long to log): the sum of the slice in closed form, factor by factor below 2^31
 FillSum256 == ((E.n % 256) * E.b) % 256
-FillSumRef == ((E.n % RefMod) * E.b) % RefMod
-TFill == \/ E.ev = "append_fill" /\ Step((acc + FillSum256) % 256, Norm(ref + FillSumRef))
+\* (n mod RefMod) * b mod RefMod without leaving 31 bits (RefMod = 2^24 here: n mod RefMod = h * 2^16 + w)
+FillSumRef == LET a == E.n % RefMod w == a % 65536 h == a \div 65536
+              IN (w * E.b + ((h * E.b) % (RefMod \div 65536)) * 65536) % RefMod
+TFill == \/ E.ev \in {"append_fill", "sink_vec_fill"} /\ Step((acc + FillSum256) % 256, Norm(ref + FillSumRef))
          \/ E.ev = "delete_fill" /\ Step((acc + 256 - FillSum256) % 256, Norm(ref - FillSumRef))
 
 \* the complete single-byte transition table from one state, recorded as one event
